@@ -5,16 +5,22 @@ counts completed iterations; state.x and the xk argument are copies; ownership: 
 handed to the callback (frame obligation no_write_escaped[callback], loop invariant x_local) - for every iteration
 (invariant cut), i.e. every crash point.
 """
-from props._mainbased import main_property
+from props._mainbased import main_property, selector
+from units import kernels_unit
 
 PID = "C07"
 
 
 def check(tier, seed):
+    # the restore contract for ANY checkpoint object - in particular a state kept by the callback, whose report
+    # fields (status 2, running task) differ from those of a returned result
+    kn = kernels_unit.run_unit(tier, only="restore")
     return main_property(
         PID, tier, seed, "proof",
         "callback-site clauses + ownership/frame obligations, UF domain; 'same continuation after restart from the "
         "state' = C06's restore contract with this state as checkpoint.",
+        extra_reports=[(kn, selector(PID))],
         extra_assumptions=["the continuation clause (restart from the retained state) relies on C06's restore contract"],
         what="clauses checked natively: state k equals result of a run with maxiter=k; state unchanged afterwards; "
-             "callback returning False does not alter the run")
+             "callback returning False does not alter the run; a restart from the state kept at iteration k produces "
+             "the uninterrupted run's iterate k+1 and counters")
